@@ -221,6 +221,15 @@ func Random(w *vt.W, rng *rand.Rand, n, maxLen int) {
 		nl := a.Len()
 		match, mismatch, g := 1+rng.Intn(5), -rng.Intn(5), -rng.Intn(6)
 		noisy := rng.Intn(2) == 0
+		if (k/4)%2 == 1 {
+			// within a sweep block (below) the scores swing between gaps being nearly free and gaps being dear, so
+			// that the best alignment under one setting is a poor one under the next
+			if k%2 == 0 {
+				match, mismatch, g = 2, -4, -1
+			} else {
+				match, mismatch, g = 2, -1, -6
+			}
+		}
 		// a matrix may be larger than the alphabet (only smaller ones are refused): the surplus rows and columns,
 		// filled with conspicuous scores, must never be read
 		size := nl
